@@ -9,6 +9,16 @@ NOTE = ('Trusted: Lean 4.33 kernel; axioms within {propext, Classical.choice, Qu
         'Python generators/oracles; 64-bit usize.')
 
 CLAIMS = {
+ 'C07': dict(category='proof', technique='Lean 4 theorems on the defragmenter state machine (generic in the payload parser): accumulate_then_parse by induction over fragments, refusals, buffer_bound invariant over all histories, fresh-equivalence bisimulation + history correspondence with hook observations',
+   text='Theorems (for any one-shot payload parser R and any byte type): fast_path, refuse_other_type / refuse_too_large / nocopy_refuses (state unchanged), buffer_bound (invariant over every operation sequence), idle_behaves_fresh (bisimulation: a non-defragmenting parser, whatever its stale buffer, is output-equivalent to a fresh one on every future history; reset gives init), accumulate_then_parse / continuation_phase (induction over the fragment list: every call but the last answers Incomplete and stays in progress, the last returns R on the accumulated bytes with the pseudo header), accAll_eq_concat, and handshake_prefix_fragLike / handshake_cut_incomplete discharging the fragment hypothesis for cuts anywhere incl. inside the 4-byte header. Tie: thousands of generated histories (k-way splits, empty fragments, interleaved foreign records and nocopy calls, resets, chained messages, a stream to the 10 MiB cap) compared step by step with an accumulate-then-parse oracle and with the model, observing buffer length and in-progress flag through the hook.',
+   design_ref='DESIGN.md section 6 C07'),
+ 'C10': dict(category='proof', technique='Lean 4 theorems (DTLS header round-trip for all epochs / 48-bit sequence numbers, too_large, incomplete_iff, needed_exact, frame, fragment rule) + framing sweep and exact-value correspondence',
+   text='Theorems dtls_header_roundtrip, dtls_too_large, dtls_incomplete_iff, dtls_needed_exact, dtls_frame, dtls_fragment / dtls_not_fragment (fragment iff offset>0 or fragment_length<length, body = exactly fragment_length bytes, is_fragment true) and the multi-record instance of C16. Body round-trips are tied by exact-value correspondence (independent Python RFC encoder) rather than by a per-body theorem in this round; the level note says so.',
+   design_ref='DESIGN.md section 6 C10',
+   note='PARTIAL at theorem level: framing, header and fragment rule are proved for all inputs; the six DTLS handshake body round-trips (ClientHello with cookie, HelloVerifyRequest, ServerHello, Certificate, ServerHelloDone, ClientKeyExchange) are covered by exact-value differential testing against an independent encoder, not yet by a Lean round-trip theorem. ' + NOTE),
+ 'C16': dict(category='proof', technique='Lean 4 theorem generic in the single-record parser: many1(complete p) = repeated application (well-founded induction), instantiated for TLS and DTLS + oracle correspondence',
+   text='many1_complete_eq_repeat / many1_complete_fails_iff: for any parser p that never panics or answers Failure and consumes on success, many1(complete p) returns exactly the records of repeated application and the remainder where it stops, and succeeds iff the first application does; instantiated with parsePlaintext (Clean by C01, Consumes by parsePlaintext_ok_rem) and parseDtlsPlaintextRecord; tlsParser = parsePlaintext by rfl. Tie: concatenations of 0..5 records with six kinds of tails against the direct oracle and the single-record parser on the same buffer.',
+   design_ref='DESIGN.md section 6 C16'),
  'C02': dict(category='proof', technique='Lean 4 theorems on the record-framing model (header decode, frame_exact, too_large, incomplete_iff, needed_exact) + differential/oracle correspondence over all content types and boundary lengths',
    text='Theorems header_decode/header_roundtrip, raw/encrypted_frame_exact, *_too_large, *_incomplete_iff and *_needed_exact hold for every input of the three record parsers (plaintext: plaintext_frame reduces it to the payload parser, recordWithHeader_neverIncomplete gives the only-if direction). The tie: a sweep of all 256 content types x boundary lengths x prefixes judged by the property\'s own framing oracle on the implementation and compared with the model, plus well-formed records, exact-Needed prefixes, suffixes and length-field corruptions.',
    design_ref='DESIGN.md section 6 C02'),
